@@ -8,6 +8,15 @@ Driver commands of the C15 model (`c15 …`). The handler table is the regenerat
         policy: the handler's own (resource, action) is granted iff own=1, every other
         key iff other=1.
   c15 paths <handler> <own> <other> → ok <effects>/<refused><noreq>/<exit> | …   (for replay files)
+  c15 decide <enabled> <none|empty|id:<text>> <enfErr> <enfOk> → ok allow | ok refuse
+        the regenerated decision tree of ensureAuthorizationPermission
+  c15 loops                         → ok <name> …          (per-message loops of the table)
+  c15 session <loop> <bits>         → ok <i>:<denied|open>:<effects|-> …
+        one session of the per-message loop reached from RPC <loop>; message i goes to its
+        own stream s<i> and is granted by the policy in force for it iff bit i is 1. Per
+        message: `denied` = every path of the iteration refuses and has no effect; effects =
+        every effect some path may execute (the iterations of `Authz.sessions` are
+        independent, so this is computed per message).
 -/
 import Liftbridge.Model.Authz
 import Liftbridge.Gen.Handlers
@@ -53,6 +62,28 @@ def c15Step (toks : List String) : String :=
       "ok " ++ " | ".intercalate (ps.map fun p =>
         s!"{c15List p.effects}/{if p.refused then "R" else "r"}{if p.noreq then "N" else "n"}/{p.exit.str}")
     | _, _, _ => "bad-op"
+  | ["decide", en, idt, ee, eo] =>
+    let ident : Option (Option String) :=
+      if idt == "none" then some none
+      else if idt == "empty" then some (some "")
+      else if idt.startsWith "id:" then some (some (idt.drop 3).toString) else none
+    match c15Bool en, ident, c15Bool ee, c15Bool eo with
+    | some e, some i, some x, some o =>
+      if (Gen.Handlers.ensureDecision.eval ⟨e, i, x, o⟩).isAllow then "ok allow" else "ok refuse"
+    | _, _, _, _ => "bad-op"
+  | ["loops"] => "ok " ++ " ".intercalate (Gen.Handlers.sessionLoops.map (·.name))
+  | ["session", n, bits] =>
+    match Gen.Handlers.sessionLoops.find? (·.name == n) with
+    | none => "bad-op"
+    | some l =>
+      if bits.toList.any (fun c => c != '0' && c != '1') then "bad-op" else
+      let msgs : List Msg := bits.toList.zipIdx.map fun (c, i) =>
+        ⟨s!"s{i}", fun _ r a => r == s!"s{i}" && a == l.act && c == '1'⟩
+      let outs := msgs.zipIdx.map fun (m, i) =>
+        let ps := paths (m.allow l.res "alice") l.body
+        let clean := ps.all fun p => p.effects.isEmpty && p.refusal
+        s!"{i}:{if clean then "denied" else "open"}:{c15List (c15Sorted (ps.flatMap (·.effects)))}"
+      "ok " ++ " ".intercalate outs
   | _ => "bad-op"
 
 end Liftbridge.Driver
